@@ -393,14 +393,34 @@ class FnOverlay:
     def _span(self):
         return self.it["body_start"], self.it["body_end"]
 
+    def stmt(self, prefix):
+        """Span of the unique statement (at any nesting depth) whose text starts with `prefix`
+        (whitespace-normalised).  Anchoring on the statement's HEAD keeps the anchor alive when the rest of the
+        statement is edited."""
+        want = _norm_ws(prefix).replace(" ", "")
+        hits = []
+        for (s, e) in self.it.get("all_stmts", []):
+            txt = _norm_ws(self.fo.src(s, e)).replace(" ", "")
+            if txt.startswith(want):
+                hits.append((s, e))
+        # nested statements of a matching outer statement also match only if they start with the prefix themselves
+        if len(hits) != 1:
+            raise AnchorLost(f"statement starting with {prefix[:60]!r} in fn {self.path}: {len(hits)} matches")
+        s, e = hits[0]
+        # include a trailing `;` that syn does not count as part of an expression statement
+        return s, e
+
     def before(self, anchor, text, tag_kind="assert"):
-        """Insert proof text before the unique occurrence of `anchor` inside the body."""
-        s, e = self.fo.find_unique(anchor, *self._span(), what=f"(fn {self.path})")
+        """Insert proof text before the statement that starts with `anchor`."""
+        s, e = self.stmt(anchor)
         self._proof(s, text, tag_kind)
         return self
 
     def after(self, anchor, text, tag_kind="assert"):
-        s, e = self.fo.find_unique(anchor, *self._span(), what=f"(fn {self.path})")
+        """Insert proof text after the statement that starts with `anchor`."""
+        s, e = self.stmt(anchor)
+        if self.fo.data[e:e + 1] == b";":
+            e += 1
         self._proof(e, text, tag_kind)
         return self
 
